@@ -23,6 +23,9 @@ class HistoryMonitor(Monitor):
     def attach(self, res):
         Monitor.attach(self, res)
         res.sim.after_step.append(self.poll)
+        cfg = res.scenario.get("config") or {}
+        self.exact = cfg.get("policy") == "canonical" and cfg.get("latency", "zero") == "zero" and \
+            not res.scenario.get("faults")
 
     def stores(self):
         for n in self.world.nodes:
@@ -166,7 +169,9 @@ class HistoryMonitor(Monitor):
             if not ok:
                 self.add("C09", "entered-sequence-differs-from-model",
                          "%s: engine entered %s, model %s" % (arn, [x[0] for x in eng], [x[0] for x in m_entered]))
-        elif not f.fanout_failures:
+        elif not f.fanout_failures or (self.exact and not f.cancel_tie):
+            # (after a branch failure the model strikes out what its cancelled siblings would have done later; under the
+            # zero-latency canonical schedule that is exactly what the engine may still log)
             a = sorted(x[0] for x in eng)
             b = sorted(x[0] for x in m_entered)
             if a != b:
